@@ -8,6 +8,7 @@ finish_pairing over the simulated network against the reference IP accessory.
 
 from __future__ import annotations
 
+import asyncio
 import random
 
 from checks.protocommon import Pipe, delivered_items
@@ -60,6 +61,9 @@ def gen_plan(seed: int, tier: str) -> dict:
         "acc_id": (lambda mac: r.choice([mac, mac, mac.lower(), mac[:8] + mac[8:].lower(), "Living Room Bridge %d" % r.randrange(100), "é-%d" % r.randrange(100)]))(
             ":".join(f"{r.randrange(256):02X}" for _ in range(6))),
         "with_auth": r.random() < 0.3,
+        # the application calls the finish function again with ANOTHER (wrong) setup code: after the first call ended, while it is
+        # still waiting for a reply, or after it was cancelled by the caller's own time-out (ip driver)
+        "second_call": r.choice([None, None, None, "wrong_after", "wrong_during", "cancel_then_wrong"]), "second_ticks": r.choice([0, 1, 3, 10, 40]),
         "ops": [],
     }
 
@@ -231,7 +235,7 @@ def _run_ip(plan, ch, ctx, setup, ident, pin, wire_hook):
     w = IpWorld(ctx, loop, {"hosts": [["10.0.0.1", "genuine"]], "seg": "random"})
     w.acc.controllers.clear()  # unpaired accessory
     w.acc.admins.clear()
-    res = {"result": None, "exc": None, "delivered": []}
+    res = {"result": None, "exc": None, "delivered": [], "recording": True}
     step = [0]
 
     def http_override(session, req, serial):
@@ -243,7 +247,8 @@ def _run_ip(plan, ch, ctx, setup, ident, pin, wire_hook):
             w.acc.controllers[setup.paired_controller[0]] = setup.paired_controller[1]
         rb = wire_hook(step[0], tlv8.encode(reply))
         step[0] += 1
-        res["delivered"].append(rb)
+        if res["recording"]:
+            res["delivered"].append(rb)
         return rhttp.response(200, rb, "application/pairing+tlv8")
 
     w.http_override = http_override
@@ -261,13 +266,51 @@ def _run_ip(plan, ch, ctx, setup, ident, pin, wire_hook):
         desc.feature_flags = FeatureFlags(1 if plan["with_auth"] else 0)
         controller = IpController(char_cache=CharacteristicCacheMemory(), zeroconf_instance=FakeZeroconf())
         disc = IpDiscovery(controller, desc)
+        wrong = "135-79-246" if pin != "135-79-246" else "246-80-135"
+        mode = plan.get("second_call")
+
+        async def call_wrong(why):
+            """a call with a setup code the accessory does not know can never legitimately produce pairing data"""
+            ctx.probe("second_finish_call_" + why)
+            ctx.obligations += 1
+            res["recording"] = False  # what the accessory answers to THIS call is not part of the exchange that is judged
+            try:
+                p2 = await finish(wrong)
+            except Exception:  # noqa: BLE001
+                return
+            if p2 is not None:
+                ctx.violate("unauthenticated-pairing-accepted", "call-with-a-wrong-code-returned-data/" + why,
+                            f"finish_pairing({wrong!r}) returned pairing data although the accessory only knows {pin!r} ({why})")
+
         try:
             finish = await disc.async_start_pairing("alias")
-            pairing = await finish(pin)
+            if mode == "wrong_during":
+                res["disturbed"] = True  # two exchanges overlapping on one connection: the honest one may legitimately fail
+                res["skip_judge"] = True  # ... and the replies of the two interleave: only the wrong-code call is judged in these runs
+                first = loop.create_task(finish(pin))
+                for _ in range(plan.get("second_ticks", 0)):
+                    await asyncio.sleep(0)
+                await call_wrong("while-the-first-call-is-waiting")
+                pairing = await first
+            elif mode == "cancel_then_wrong":
+                res["disturbed"] = True
+                try:
+                    pairing = await asyncio.wait_for(finish(pin), 0.0005 * (1 + plan.get("second_ticks", 0)))
+                except asyncio.TimeoutError:
+                    pairing = None
+                    await asyncio.sleep(2.0)
+                    await call_wrong("after-the-first-call-was-cancelled")
+                    raise
+            else:
+                pairing = await finish(pin)
             res["result"] = dict(pairing.pairing_data)
+            if mode == "wrong_after":
+                await call_wrong("after-the-first-call-succeeded")
             await pairing.shutdown()
         except Exception as e:  # noqa: BLE001
             res["exc"] = e
+            if mode == "wrong_after" and "finish" in locals():
+                await call_wrong("after-the-first-call-failed")
         finally:
             try:
                 await disc.close()
@@ -287,6 +330,9 @@ def _run_ip(plan, ch, ctx, setup, ident, pin, wire_hook):
 def judge(plan, ctx: Ctx, out: dict, prefix: str = "") -> None:
     setup: hap.SetupResponder = out["setup"]
     res, exc = out["result"], out["exc"]
+    if out.get("skip_judge"):
+        ctx.probe("overlapping_finish_calls_only_second_judged")
+        return
     ok, why, info = verify_delivered(setup, out["delivered"])
     ctx.obligations += 1
     mut = plan["mut"]
@@ -313,7 +359,7 @@ def judge(plan, ctx: Ctx, out: dict, prefix: str = "") -> None:
     else:
         if exc is None:
             ctx.violate(prefix + "no-result-no-error", str(mut), "pairing returned nothing and raised nothing")
-        elif mut is None and plan.get("expect_success", True):
+        elif mut is None and plan.get("expect_success", True) and not out.get("disturbed"):
             ctx.violate(prefix + "honest-exchange-failed", type(exc).__name__,
                         f"driver {plan['driver']}: honest accessory, correct code, but pairing failed with {exc!r}; accessory: m3_ok={setup.m3_ok} m5_ok={setup.m5_ok} {setup.m5_reason}")
     if out.get("noncanonical"):
